@@ -82,7 +82,7 @@ def mutants(ctx):
 CLAIMED = True
 MANIFEST = {
  "engine": "cbmc-src",
- "text": "Bounded model checking of the real scheduling.c wait machinery (parsec_context_add_taskpool / _start / _wait, __parsec_context_wait, parsec_taskpool_wait, __parsec_task_progress, parsec_taskpool_termination_detected) with the real local termination detector on one execution stream: 2-3 taskpools with 0..2 tasks each; the solver chooses the task counts, who submits each taskpool (main program, a task body, a completion callback, or a second epoch) and the order in which the scheduler hands out pending tasks.  Ghost counters show: when context_wait returns every submitted taskpool ran all its tasks and reported completion exactly once after its last task; parsec_taskpool_wait(tp) returns only with tp terminated; no task runs after a wait returned; active_taskpools is back to zero and a second start/wait epoch behaves the same; the wait loop never spins without a runnable task.",
+ "text": "Bounded model checking of the real scheduling.c wait machinery (parsec_context_add_taskpool / _start / _wait, __parsec_context_wait, parsec_taskpool_wait, __parsec_task_progress, parsec_taskpool_termination_detected) with the real local termination detector on one execution stream: 2-3 taskpools with 0..2 tasks each; the solver chooses the task counts, who submits each taskpool (main program, a task body, a completion callback, or a second epoch) and the order in which the scheduler hands out pending tasks.  Ghost counters show: when context_wait returns every submitted taskpool ran all its tasks and reported completion exactly once after its last task, and no taskpool is reported TERMINATED while its completion callback is still running (observed from inside the callback); parsec_taskpool_wait(tp) returns only with tp terminated; no task runs after a wait returned; active_taskpools is back to zero and a second start/wait epoch behaves the same; the wait loop never spins without a runnable task.",
  "note": "single stream (barriers no-ops); tasks are independent units; scheduler module, task class hooks, device selection, PINS, output, MCA, remote_dep on/off are stubs; function pointer call sites are restricted to the installed callbacks with checked assertions; DTD re-arming, on_enter/leave_wait callbacks, compound taskpools (C15 finding) outside.",
  "technique": "CBMC bounded symbolic execution of the real C units + SAT (cadical)",
 }
